@@ -40,7 +40,7 @@ type argT struct {
 //	blank    var _ = lg("x0", args…)             (Label = x0)
 //	mapvar   var mp0 = map[int]int{7: lg("mp0", args…)}
 //	funcvar  var fv0 = func() int { return 1 + args… }   (a function literal: evaluating it logs nothing)
-//	commaok  var v0, ok0 = mp0[lg("v0", args…)]    (Recv = mp0; package-level comma-ok declaration, accepted since 2d7bcd6)
+//	commaok  var v0, ok0 = mp0[lg("v0", args…)]    (Recv = mp0; package-level comma-ok declaration, accepted since e4c80e1)
 type varT struct {
 	Kind  string   `json:"kind"`
 	Names []string `json:"names"`
